@@ -23,7 +23,7 @@ import (
 type FaultSpec struct {
 	Stream string `json:"stream"` // "<conn>/<writer c|s>:<stream id>"
 	Pos    int64  `json:"pos"`
-	Kind   string `json:"kind"` // peerclose loss cancelS cancelR flip shrink remove
+	Kind   string `json:"kind"` // peerclose loss cancelS cancelR flip shrink remove loss-other close-other
 	Arg    int    `json:"arg,omitempty"`
 }
 
@@ -39,6 +39,7 @@ type faultObs struct {
 	p       *Prepared
 	firedAt int64
 	log     map[string][]byte // bytes per stream direction (baseline run only)
+	sconns  []*quic.Conn      // sender-side ends of all connections (faults on "the other" connection)
 }
 
 // payloadOrCRC reports whether byte position pos of a data stream (given its baseline bytes) lies
@@ -101,6 +102,20 @@ func (o *faultObs) BeforeWrite(s *quic.Stream, p []byte) (int, quic.Fault) {
 		if o.cancelR != nil {
 			o.cancelR()
 		}
+	case "loss-other", "close-other":
+		// the fault hits every connection except the one this stream belongs to (a secondary
+		// connection of a multi-connection transfer goes away while the rest carries on)
+		mine := strings.TrimSuffix(strings.TrimSuffix(s.Conn().Name, "/c"), "/s")
+		for _, c := range o.sconns {
+			if strings.TrimSuffix(strings.TrimSuffix(c.Name, "/c"), "/s") == mine {
+				continue
+			}
+			if a.Kind == "loss-other" {
+				c.Lose()
+			} else {
+				c.CloseWithError(0, "")
+			}
+		}
 	case "flip":
 		p[off] ^= 1 << uint(a.Arg%8)
 	case "shrink", "remove":
@@ -137,6 +152,7 @@ func c02Env(p *Prepared, f *FaultSpec) (*Env, *faultObs) {
 	env.Obs = obs
 	env.SenderCtx = func(ctx context.Context, cancel context.CancelFunc) { obs.cancelS = cancel }
 	env.RecvCtx = func(ctx context.Context, cancel context.CancelFunc) { obs.cancelR = cancel }
+	env.AfterSetup = func(sc, rc []*quic.Conn) { obs.sconns = sc }
 	env.RecvOpts = func(o *transfer.Options) {
 		o.FileDoneFn = func(rel string, ok bool) {
 			if ok {
@@ -406,6 +422,55 @@ func modeC02() {
 			}
 			os.RemoveAll(p.SrcRoot)
 		}
+	}
+	// Multi-connection transfers: a secondary connection goes away (path loss / closed by the
+	// sender's end) while the transfer carries on over the primary one - armed at a stride of
+	// byte positions of the primary connection's control stream, both directions. One workload
+	// has fewer chunks than data streams, so that a stream of the secondary connection never
+	// carries a frame (and is invisible to the receiver until the end).
+	for wi, c := range []Case{
+		{Tree: []Entry{{Path: "a", Size: 4}}, Chunk: 4, Streams: 2, Conns: 2, Resume: true, NoRootDir: true},
+		{Tree: []Entry{{Path: "a", Size: 4}, {Path: "b", Size: 6}}, Chunk: 4, Streams: 2, Conns: 2, Resume: false, NoRootDir: true},
+		{Tree: []Entry{{Path: "a", Size: 4}}, Chunk: 4, Streams: 3, Conns: 3, Resume: false, NoRootDir: true},
+	} {
+		p, err := prepare(c)
+		if err != nil {
+			res.InfraError("prepare: %v", err)
+			continue
+		}
+		env0, obs0 := c02Env(p, nil)
+		x0 := vrt.Run(c02Cfg(), nil, func() { runTransfer(p, env0) })
+		if x0.Outcome != "ok" || last.SendErr != nil || last.RecvErr != nil {
+			res.InfraError("baseline of multi-connection workload %d is not a clean success: %s %v %v", wi, x0.Outcome, last.SendErr, last.RecvErr)
+			continue
+		}
+		st.cases++
+		for _, k := range []string{"conn0/c:0", "conn0/s:0"} {
+			n := obs0.counts[k]
+			for pos := int64(0); pos < n; pos += 3 {
+				for _, kind := range []string{"loss-other", "close-other"} {
+					f := FaultSpec{k, pos, kind, 0}
+					job++
+					if !vlib.MineKey(fmt.Sprintf("mc%d|%s", wi, f)) {
+						continue
+					}
+					env, obs := c02Env(p, &f)
+					e := &vrt.Explorer{Cfg: c02Cfg(), Bound: 0, Deadline: deadline, Root: func() { runTransfer(p, env) }}
+					e.Visit = func(x *vrt.Exec) bool {
+						if obs.fired {
+							nfired++
+							res.Nontrivial(fmt.Sprintf("mc%d|%s|%x", wi, f, x.Trace()))
+						}
+						checkC02(p, &f, x, last)
+						return true
+					}
+					e.Run()
+					st.add(e)
+					res.SampleSpread(int64(job), map[string]any{"workload": c.String(), "fault": f.String()})
+				}
+			}
+		}
+		os.RemoveAll(p.SrcRoot)
 	}
 	// Lock-level phase: the same faults on a small two-file workload with mutex acquisitions as
 	// scheduling points, so that check-then-act sequences inside the receiver's and sender's
